@@ -139,7 +139,9 @@ ApplyRec(ws, r, s, maxq, unordered) ==
                             !.nontriv = @ \cup {"endofwatch"}]
             ELSE w3
       w5 == IF queued
-            THEN [w4 EXCEPT !.nq = @ + 1, !.last = [ino |-> r.ino, m |-> r.m, n |-> r.n],
+            \* (a record for a watch whose end is pending may or may not have been queued - the library may have
+            \*  removed the kernel watch already - so it cannot be relied on to separate two identical records)
+            THEN [w4 EXCEPT !.nq = @ + 1, !.last = IF e.st = "ending" THEN @ ELSE [ino |-> r.ino, m |-> r.m, n |-> r.n],
                             !.ovf = @ \/ (ws.nq + 1 >= maxq - OvfMargin),
                             !.nontriv = @ \cup (IF merged THEN {"merge"} ELSE {}) \cup (IF ws.nq >= 1 THEN {"batch"} ELSE {})]
             ELSE w4
